@@ -104,6 +104,14 @@ Fixpoint filter_map {A B} (f : A -> option B) (l : list A) : list B :=
 
 Definition trim_q (s : zs) : zs := match s with 63 :: r => r | _ => s end.
 
+(* parseSearchQuery: the raw query of a URL (no '?' handling) *)
+Definition parse_raw (q : zs) : plist :=
+  match q with
+  | [] => []
+  | _ => filter_map parse_piece (split_on 38 q)
+  end.
+
+(* new URLSearchParams(string): one leading '?' is dropped first *)
 Definition parse_query (q : zs) : plist :=
   match q with
   | [] => []
